@@ -1,5 +1,5 @@
 #!/bin/bash
-# usage: tryseed.sh <patch> <prop> [only-regexp] : applies a patch to /repo, runs the check, reverts.
+# usage: tryseed.sh <patch> <prop> [only-regexp] [tail-lines] : applies a patch to /repo, runs the check, reverts the patch.
 cd /repo && git apply "$1" || exit 3
-cd /verif && ./bin/icsvc check --prop "$2" ${3:+--only "$3"} 2>&1 | grep -v "^  obligation" | tail -${4:-6}
-git -C /repo checkout -- . 
+cd /verif && ./bin/icsvc check --prop "$2" ${3:+--only "$3"} --timeout 40 2>&1 | grep -v "^  obligation" | tail -${4:-6}
+cd /repo && git apply -R "$1"
